@@ -35,6 +35,7 @@ import (
 type LoopSpec struct {
 	Invariants []Clause
 	Decreases  *Clause
+	DecreasesLex []Clause // lexicographic measure (decreases e1, e2, ...)
 	Unroll     int
 	Uses       []Clause // instances of separately proved lemmas, assumed at the loop head
 }
@@ -163,6 +164,28 @@ func parseContractFile(path string) (*ContractFile, error) {
 			}
 			switch m[2] {
 			case "invariant", "decreases", "use":
+				if m[2] == "decreases" && topLevelIndex(m[3], ",") >= 0 {
+					rest := m[3]
+					for {
+						k := topLevelIndex(rest, ",")
+						part := rest
+						if k >= 0 {
+							part = rest[:k]
+						}
+						pe, err := parseCExpr(part)
+						if err != nil {
+							return nil, fmt.Errorf("%s:%d: %v in %q", path, lineNo, err, part)
+						}
+						ls.DecreasesLex = append(ls.DecreasesLex, Clause{Text: strings.TrimSpace(part), Expr: pe, Line: lineNo})
+						if k < 0 {
+							break
+						}
+						rest = rest[k+1:]
+					}
+					cl := Clause{Text: m[3], Expr: ls.DecreasesLex[0].Expr, Line: lineNo}
+					ls.Decreases = &cl
+					continue
+				}
 				e, err := parseCExpr(m[3])
 				if err != nil {
 					return nil, fmt.Errorf("%s:%d: %v in %q", path, lineNo, err, m[3])
